@@ -2,6 +2,7 @@
    user-name normalisation *)
 From Coq Require Import ZArith.
 From KM Require Import Base.Bytes Base.Tactics Model.Auth Model.Certgen Model.CertgenCases Proofs.CertgenSpec Proofs.CertgenAuth Proofs.Certgen.
+From KM Require Model.Seal Proofs.Seal.
 Open Scope N_scope.
 
 (* ---- maps *)
@@ -143,7 +144,7 @@ Variable expand : bs -> bs -> option bs.
 Lemma ssh_cert_fields st u user q c :
   ssh_cert expand st u user q = Issued u c ->
   d_ssh c = true /\ d_names c = [user] /\ d_keyid c = s_host st ++ [95] ++ user /\
-  (exists ed, q_key q = Some (d_key c, ed) /\ d_signer c = (if ed then CAEd25519 else CAMain) /\
+  (exists ed, q_key q = Some (d_key c, ed) /\ d_signer c = (if ed then ed_key_of st else main_key_of st) /\
               (ed = true -> s_ed25519_ca st = true)) /\
   d_user_type c = true /\ d_is_ca c = false /\
   exists custom, expand_extensions expand (s_templates st) user [] = Some custom /\
@@ -161,7 +162,7 @@ Qed.
 Lemma x509_cert_fields st u user q kube c :
   x509_cert st u user q kube = Issued u c ->
   d_ssh c = false /\ d_names c = [user] /\ (exists ed, q_key q = Some (d_key c, ed)) /\
-  d_signer c = CAMain /\ d_user_type c = true /\ d_is_ca c = false /\ In EkuClientAuth (d_ekus c) /\
+  d_signer c = main_key_of st /\ d_user_type c = true /\ d_is_ca c = false /\ In EkuClientAuth (d_ekus c) /\
   d_krb c = match s_realm st with Some r => Some (r, user) | None => None end /\
   exists ug, (if kube || q_add_groups q then s_groups st user else Some []) = Some ug /\
              d_orgs c = (if kube then ug else [s_keymaster]) /\
@@ -173,17 +174,65 @@ Proof.
   intro H. inversion H; subst; clear H. cbn. repeat split; eauto.
 Qed.
 
-(* C02: what every issued certificate says *)
-Theorem binding st now lim q u c :
+(* the key that signs an issued certificate is one of the loaded signers: the main signer, or for
+   an SSH certificate on an Ed25519 user key the Ed25519 signer *)
+Lemma issued_signer st now lim q u c :
+  certgen expand st now lim q = Issued u c ->
+  Seal.signer (s_keys st) <> None /\
+  (Seal.signer (s_keys st) = Some (d_signer c) \/ (d_ssh c = true /\ Seal.ed (s_keys st) = Some (d_signer c))).
+Proof.
+  intro H. apply certgen_issued in H. destruct H as [S [l2 [iat [_ [_ [_ [_ [_ K]]]]]]]].
+  unfold s_sealed in S. apply negb_false_iff in S.
+  assert (M : Seal.signer (s_keys st) = Some (main_key_of st)).
+  { unfold main_key_of. destruct (Seal.signer (s_keys st)); [reflexivity|discriminate]. }
+  split; [rewrite M; discriminate|].
+  destruct K as [[_ K]|[[_ K]|[_ K]]].
+  - apply ssh_cert_fields in K. destruct K as [SS [_ [_ [[ed [K1 [K2 K3]]] _]]]].
+    destruct ed.
+    + right. split; [exact SS|]. specialize (K3 eq_refl). unfold s_ed25519_ca in K3. rewrite K2. unfold ed_key_of.
+      destruct (Seal.ed (s_keys st)); [reflexivity|discriminate].
+    + left. rewrite K2. exact M.
+  - apply x509_cert_fields in K. destruct K as [_ [_ [_ [SG _]]]]. left. rewrite SG. exact M.
+  - apply x509_cert_fields in K. destruct K as [_ [_ [_ [SG _]]]]. left. rewrite SG. exact M.
+Qed.
+
+(* in every state the sealing model reaches by injections - whatever the key files, whatever the
+   configured public-key list (any keys, any order, duplicates), whatever the injections - a loaded
+   signer's key is among the published CA certificates and among the published keys *)
+Lemma loaded_keys_published kc l k :
+  let s := Seal.inject_all kc (Seal.sealed_init kc) l in
+  Seal.signer s <> None -> (Seal.signer s = Some k \/ Seal.ed s = Some k) ->
+  In k (Seal.ca_ders s) /\ In k (Seal.pubkeys s).
+Proof.
+  intros s Hn [H|H].
+  - apply (KM.Proofs.Seal.published kc l [Seal.HSign 0 false false] 0 k false). fold s. simpl. rewrite H. simpl. left. reflexivity.
+  - destruct (Seal.signer s) as [k0|] eqn:E; [|congruence].
+    apply (KM.Proofs.Seal.published kc l [Seal.HSign 0 false true] 0 k false). fold s. simpl. rewrite E, H. simpl. left. reflexivity.
+Qed.
+
+(* signerPublicKeyToKeymasterKeys: whatever the list was before, every loaded signer's key is in
+   the list afterwards *)
+Lemma published_for_every_initial_list s k :
+  (Seal.signer s = Some k \/ (Seal.ed s = Some k /\ Seal.signer s <> None)) ->
+  Seal.mem k (Seal.add_pubkeys s) = true.
+Proof.
+  intros [H|[H N]].
+  - apply KM.Proofs.Seal.add_pubkeys_signer. exact H.
+  - apply KM.Proofs.Seal.add_pubkeys_ed; [exact H|]. destruct (Seal.signer s); [reflexivity|congruence].
+Qed.
+
+(* C02: what every issued certificate says.  The key material of the server is any state the
+   sealing model reaches from a freshly loaded configuration kc by any list l of injections. *)
+Theorem binding_fields st now lim q u c :
   certgen expand st now lim q = Issued u c ->
   (exists level, proves now q u level) /\
   d_names c = [s_name st u] /\ q_target q = s_name st u /\
   (exists ed, q_key q = Some (d_key c, ed)) /\
   d_user_type c = true /\ d_is_ca c = false /\
-  (d_ssh c = false -> In EkuClientAuth (d_ekus c)) /\
-  In (d_signer c) (published st).
+  (d_ssh c = false -> In EkuClientAuth (d_ekus c)).
 Proof.
-  intro H. pose proof (certgen_sound _ _ _ _ _ _ _ H) as [_ [[level [P _]] [T _]]].
+  intros H.
+  pose proof (certgen_sound _ _ _ _ _ _ _ H) as [_ [[level [P _]] [T _]]].
   apply certgen_issued in H. destruct H as [_ [l2 [iat [_ [_ [_ [_ [_ K]]]]]]]].
   split; [eauto|]. split; [|split; [exact T|]].
   - destruct K as [[_ K]|[[_ K]|[_ K]]].
@@ -192,14 +241,28 @@ Proof.
     + apply x509_cert_fields in K. tauto.
   - destruct K as [[_ K]|[[_ K]|[_ K]]].
     + apply ssh_cert_fields in K. destruct K as [S [_ [_ [[ed [K1 [K2 K3]]] [U [C _]]]]]].
-      split; [eauto|]. split; [exact U|]. split; [exact C|]. split; [congruence|].
-      unfold published. rewrite K2. destruct ed; [rewrite (K3 eq_refl); simpl; auto|simpl; auto].
+      split; [eauto|]. split; [exact U|]. split; [exact C|]. congruence.
     + apply x509_cert_fields in K. destruct K as [S [_ [KK [SG [U [C [E _]]]]]]].
-      split; [exact KK|]. split; [exact U|]. split; [exact C|]. split; [auto|].
-      rewrite SG. simpl. auto.
+      split; [exact KK|]. split; [exact U|]. split; [exact C|]. auto.
     + apply x509_cert_fields in K. destruct K as [S [_ [KK [SG [U [C [E _]]]]]]].
-      split; [exact KK|]. split; [exact U|]. split; [exact C|]. split; [auto|].
-      rewrite SG. simpl. auto.
+      split; [exact KK|]. split; [exact U|]. split; [exact C|]. auto.
+Qed.
+
+Theorem binding kc l st now lim q u c :
+  s_keys st = Seal.inject_all kc (Seal.sealed_init kc) l ->
+  certgen expand st now lim q = Issued u c ->
+  (exists level, proves now q u level) /\
+  d_names c = [s_name st u] /\ q_target q = s_name st u /\
+  (exists ed, q_key q = Some (d_key c, ed)) /\
+  d_user_type c = true /\ d_is_ca c = false /\
+  (d_ssh c = false -> In EkuClientAuth (d_ekus c)) /\
+  In (d_signer c) (published_ssh st) /\ In (d_signer c) (published_x509 st).
+Proof.
+  intros HK H. pose proof (issued_signer _ _ _ _ _ _ H) as [SN SK].
+  pose proof (binding_fields _ _ _ _ _ _ H) as [A [B [C [D [E [F G]]]]]].
+  repeat (split; [assumption|]).
+  unfold published_ssh, published_x509. rewrite HK in *.
+  destruct (loaded_keys_published kc l (d_signer c) SN) as [X Y]; [tauto|]. split; assumption.
 Qed.
 
 (* a request on behalf of any other name: whoever the request authenticates as, if that name is
@@ -267,5 +330,5 @@ Theorem user_is_normalised expand okta disable st now lim q submitted u c :
   certgen expand st now lim q = Issued u c ->
   q_target q = normalise okta disable submitted /\ d_names c = [normalise okta disable submitted].
 Proof.
-  intros N H. apply binding in H. destruct H as [_ [D [T _]]]. rewrite <- N. auto.
+  intros N H. apply binding_fields in H. destruct H as [_ [D [T _]]]. rewrite <- N. auto.
 Qed.
